@@ -523,18 +523,9 @@ func (h *Hub) run() {
 				log.WithFields(log.Fields{"error": err.Error(), "topic": client.topic, "booking_id": client.bookingID}).Warning("deny channel not added on client register")
 			}
 		case client := <-h.unregister:
-			h.mu.Lock()
-			if _, ok := h.clients[client.topic]; ok {
-				delete(h.clients[client.topic], client)
-				close(client.send)
-			}
-			h.mu.Unlock()
-			err := h.dcs.DeleteChild(client.name) // no need to close, not denied
-			verifhook.Point("hub.removed")
-			if err != nil {
-				log.WithFields(log.Fields{"error": err.Error(), "topic": client.topic, "booking_id": client.bookingID}).Warning("deny channel not deleted on client unregister")
-			}
+			h.remove(client)
 		case message := <-h.broadcast:
+			var slow []*Client
 			h.mu.RLock()
 			topic := message.sender.topic
 			for client := range h.clients[topic] {
@@ -542,14 +533,32 @@ func (h *Hub) run() {
 					select {
 					case client.send <- message:
 					default:
-						h.unregister <- client
-						//close(client.send)
-						//delete(h.clients[topic], client)
+						// cannot keep up: drop it once the scan is done (sending to our own
+						// unregister channel from here would block the hub for good)
+						slow = append(slow, client)
 					}
 				}
 			}
 			h.mu.RUnlock()
+			for _, client := range slow {
+				h.remove(client)
+			}
 		}
+	}
+}
+
+// remove takes the client out of the hub and closes its send channel, once only
+func (h *Hub) remove(client *Client) {
+	h.mu.Lock()
+	if _, ok := h.clients[client.topic][client]; ok {
+		delete(h.clients[client.topic], client)
+		close(client.send)
+	}
+	h.mu.Unlock()
+	err := h.dcs.DeleteChild(client.name) // no need to close, not denied
+	verifhook.Point("hub.removed")
+	if err != nil {
+		log.WithFields(log.Fields{"error": err.Error(), "topic": client.topic, "booking_id": client.bookingID}).Warning("deny channel not deleted on client unregister")
 	}
 }
 
